@@ -12,8 +12,11 @@ MANIFEST = dict(
 )
 
 DTYPES = ["bool", "int8", "int32", "int64", "uint8", "uint64", "float16", "float32", "float64", "longdouble",
-          "complex64", "complex128", "clongdouble"]
-CAN = {"bool": "bool", "int8": "int8", "int32": "int32", "int64": "int64", "uint8": "uint8", "uint64": "uint64",
+          "complex64", "complex128", "clongdouble",
+          # non-native byte order: the same scalar types, but not the dtypes the classes list
+          ">f4", ">f8", ">c8", ">c16", ">i2"]
+CAN = {">f4": ">f4", ">f8": ">f8", ">c8": ">c8", ">c16": ">c16", ">i2": ">i2",
+       "bool": "bool", "int8": "int8", "int32": "int32", "int64": "int64", "uint8": "uint8", "uint64": "uint64",
        "float16": "float16", "float32": "float32", "float64": "float64", "longdouble": "float128",
        "complex64": "complex64", "complex128": "complex128", "clongdouble": "complex256"}
 REQ0 = {"Signal": None, "RadioSignal": None, "IntensitySignal": "float64", "FullStokesSignal": "float64",
@@ -123,7 +126,8 @@ class Prop(PropBase):
             cls = case["cls"]
             C = getattr(pb, cls)
             a = case["args"]
-            x = np.zeros(case["shape"], dtype=getattr(np, case["dtype"]))
+            dt = np.dtype(case["dtype"]) if case["dtype"].startswith(">") else np.dtype(getattr(np, case["dtype"]))
+            x = np.zeros(case["shape"], dtype=dt)
             if case["dask"]:
                 x = self.da.from_array(x, chunks=-1)
             kw = dict(sample_rate=self._val(a["rate"], "rate"), start_time=self._val(a["start"], "start"),
@@ -135,7 +139,7 @@ class Prop(PropBase):
             if cls == "DualPolarizationSignal":
                 kw["pol_type"] = a["pol"]
             req0 = REQ0[cls]
-            safe = bool(req0 is not None and np.can_cast(getattr(np, case["dtype"]), getattr(np, req0), "safe"))
+            safe = bool(req0 is not None and np.can_cast(dt, getattr(np, req0), "safe"))
             try:
                 z = C(x, **kw)
             except Exception as e:
